@@ -187,6 +187,22 @@ def confirm_lex_failure(P, name, d, f, r):
                 break
     if mism is None and not ok:
         mism = f'native produced {len(got)} items, reference {len(exp)}'
+    if mism is None and f['what'].startswith('attempt from') and ' examined bytes up to ' in f['what']:
+        # over-/under-reading that leaves the token stream intact: confirm the examined offset with the guarded read trace
+        import re as _re
+        m = _re.match(r'attempt from (\d+) examined bytes up to (\d+)', f['what'])
+        key = (name, cfg, profile, 'trace')
+        if key not in _native:
+            _native[key] = pipeline.build_native(name, P.usable, cfg, profile, trace=True)
+        pipeline.native_run(_native[key], d.id, data, partial=r.get('partial', False), start=r['start'])
+        reads = pipeline.native_run.last_reads
+        info['native_reads'] = reads[:6]
+        t0, x = int(m.group(1)), int(m.group(2))
+        for k, rs in enumerate(reads):
+            ends = [o + max(1, n) - 1 for o, n in rs if o >= t0 and o + max(1, n) <= len(data)]     # successful reads only
+            if ends and max(ends) == x:
+                mism = f'native call #{k} examined bytes up to {x} (read trace)'
+                break
     info['mismatch'] = mism
     return (mism is not None), info
 
